@@ -174,6 +174,9 @@ fn ref_text(s: &str) -> Option<Option<Vec<u8>>> {
             (b[0].is_ascii_alphanumeric() || b[0] == b'_') && b[1..].iter().all(|&c| c.is_ascii_alphanumeric() || c == b'-') })
             && !n.ends_with("..") && !n.starts_with('.')
     };
+    // a label that starts with a hyphen is an error wherever it stands (the reference has no opinion on other shapes it does not like)
+    let hyphen_label = |n: &str| -> bool { n.split('.').any(|l| l.starts_with('-')) && n.bytes().all(|c| c.is_ascii_alphanumeric() || c == b'-' || c == b'_' || c == b'.') };
+    if hyphen_label(owner) { return Some(None); }
     if !name_ok(owner) { return None; }
     // the TTL is a run of decimal digits that fits 32 bits: anything else (a sign, a letter, a value above 2^32-1) is an error
     if !toks[1].bytes().all(|c| c.is_ascii_digit()) { return Some(None); }
@@ -189,16 +192,17 @@ fn ref_text(s: &str) -> Option<Option<Vec<u8>>> {
     match t.as_str() {
         "A" => { if rest.len() != 1 { return Some(None); }
                  let p: Vec<&str> = rest[0].split('.').collect();
-                 if p.len() != 4 { return None; }
+                 // more or fewer than four components, all of them digit runs or empty (`1.2.3.4.`, `1.2.3.4.5`, `1.2.3`): an error
+                 if p.len() != 4 { return if p.iter().all(|x| x.bytes().all(|c| c.is_ascii_digit())) { Some(None) } else { None }; }
                  let mut ip = vec![]; for x in p { match num(x, 255) { Some(v) if x.len() <= 3 && !(x.len() > 1 && x.starts_with('0')) => ip.push(v as u8),
                      // a component that is a plain number above 255 is an error (other odd shapes: no opinion)
                      None if !x.is_empty() && x.len() < 10 && x.bytes().all(|c| c.is_ascii_digit()) && !x.starts_with('0') => return Some(None),
                      _ => return None } }
                  wire(1, Some(ip)) }
-        "NS" | "CNAME" | "PTR" => { if rest.len() != 1 { return Some(None); } if !name_ok(rest[0]) { return None; }
+        "NS" | "CNAME" | "PTR" => { if rest.len() != 1 { return Some(None); } if hyphen_label(rest[0]) { return Some(None); } if !name_ok(rest[0]) { return None; }
                  let rt = match t.as_str() { "NS" => 2, "CNAME" => 5, _ => 12 };
                  wire(rt, ref_name_to_wire(rest[0].as_bytes(), None)) }
-        "MX" => { if rest.len() != 2 { return Some(None); } if !name_ok(rest[1]) { return None; }
+        "MX" => { if rest.len() != 2 { return Some(None); } if hyphen_label(rest[1]) { return Some(None); } if !name_ok(rest[1]) { return None; }
                  let pref = match num(rest[0], 65535) { Some(v) => v as u16, None => return if rest[0].bytes().all(|c| c.is_ascii_digit()) { Some(None) } else { None } };
                  wire(15, ref_name_to_wire(rest[1].as_bytes(), None).map(|n| { let mut v = vec![(pref >> 8) as u8, pref as u8]; v.extend(n); v })) }
         "SOA" => {
@@ -209,6 +213,7 @@ fn ref_text(s: &str) -> Option<Option<Vec<u8>>> {
                  let nm: Vec<&str> = names.split(' ').filter(|t| !t.is_empty()).collect();
                  let nv: Vec<&str> = nums.split(' ').filter(|t| !t.is_empty()).collect();
                  if nm.len() != 2 || nv.len() != 5 { return None; }
+                 if hyphen_label(nm[0]) || hyphen_label(nm[1]) { return Some(None); }
                  if !name_ok(nm[0]) || !name_ok(nm[1]) { return None; }
                  let mut rd = match (ref_name_to_wire(nm[0].as_bytes(), None), ref_name_to_wire(nm[1].as_bytes(), None)) { (Some(mut x), Some(y)) => { x.extend(y); x }, _ => return None };
                  for x in &nv { match num(x, u32::MAX as u64) { Some(v) => put32(&mut rd, v as u32), None => return if x.bytes().all(|c| c.is_ascii_digit()) { Some(None) } else { None } } }
@@ -336,10 +341,13 @@ pub fn gen(prop: &str, r: &mut Rng) -> Vec<String> {
                 10 => match r.below(3) {
                     0 => { let t = *r.pick(&["SRV", "NAPTR", "ANY", "AXFR"]); format!("{} {}", kw(r, t), hn(r)) }                       // a type outside the nine supported ones
                     1 => format!("{}{}{} {} {} {}g{}", kw(r, "DS"), ws(r), num(r, 65535), num(r, 255), num(r, 255), hex(&r.bytes(2)), hex(&r.bytes(1))),   // a non-hex digit in the digest
-                    _ => format!("{}{}{}", kw(r, "A"), ws(r), (0..4).map(|i| if i == 2 { (256 + r.below(800)).to_string() } else { r.below(256).to_string() }).collect::<Vec<_>>().join(".")) },
+                    _ => match r.below(3) {
+                        0 => format!("{}{}{}", kw(r, "A"), ws(r), (0..4).map(|i| if i == 2 { (256 + r.below(800)).to_string() } else { r.below(256).to_string() }).collect::<Vec<_>>().join(".")),
+                        1 => { let k = *r.pick(&[3usize, 5]); format!("{}{}{}", kw(r, "A"), ws(r), (0..k).map(|_| r.below(256).to_string()).collect::<Vec<_>>().join(".")) }
+                        _ => format!("{}{}{}.{}", kw(r, "A"), ws(r), (0..4).map(|_| r.below(256).to_string()).collect::<Vec<_>>().join("."), if r.chance(1, 2) { "" } else { "." }) } },
                 9 => { // TXT with a few escapes: valid (\\000, \\065, \\255), out of range (\\256, \\300, \\999), too short (\\25), escaped quote
                        let k = 1 + r.below(4) as usize;
-                       let inner: String = (0..k).map(|_| *r.pick(&["a", "bc", " ", "\\000", "\\065", "\\255", "\\256", "\\300", "\\999", "\\25", "\\\"", "7", "\\2555"])).collect();
+                       let inner: String = (0..k).map(|_| *r.pick(&["a", "bc", " ", "\\000", "\\065", "\\255", "\\256", "\\300", "\\999", "\\25", "\\\"", "7", "\\2555", "\x7f", "~", "!", "\x1f", "\t"])).collect();
                        format!("{}{}\"{}\"", kw(r, "TXT"), ws(r), inner) }
                 0 => format!("{}{}{}", kw(r, "A"), ws(r), (0..4).map(|_| num(r, 255).to_string()).collect::<Vec<_>>().join(".")),
                 1 => { let a = match r.below(6) {
@@ -351,7 +359,7 @@ pub fn gen(prop: &str, r: &mut Rng) -> Vec<String> {
                        format!("{}{}{}", kw(r, "AAAA"), ws(r), a) }
                 2 => { let k = *r.pick(&["NS", "CNAME", "PTR"]); format!("{}{}{}", kw(r, k), ws(r), hn(r)) }
                 3 => format!("{}{}{}{}{}", kw(r, "MX"), ws(r), num(r, 65535), ws(r), hn(r)),
-                4 => format!("{}{}{}{}{}{}({} {} {} {} {}){}", kw(r, "SOA"), ws(r), hn(r), ws(r), hn(r), ws(r), num(r, 4294967295), r.next() as u32, r.below(5000000000), num(r, 4294967295), r.next() as u32, if r.chance(1, 3) { " " } else { "" }),
+                4 => format!("{}{}{}{}{}{}({} {} {} {} {}){}", kw(r, "SOA"), ws(r), hn(r), ws(r), hn(r), if r.chance(1, 4) { String::new() } else { ws(r) }, num(r, 4294967295), r.next() as u32, r.below(5000000000), num(r, 4294967295), r.next() as u32, if r.chance(1, 3) { " " } else { "" }),
                 5 => { let n = r.below(9) as usize; format!("{}{}{} {} {} {}", kw(r, "DS"), ws(r), num(r, 65535), num(r, 255), num(r, 255), hex(&r.bytes(n)).replace("-", "") + if r.chance(1, 3) { "a" } else { "" }) }
                 6 => { let n = *r.pick(&[0usize, 3, 255, 256, 300]); format!("{}{}\"{}\"", kw(r, "TXT"), ws(r), (0..n).map(|_| *r.pick(&['a', 'b', ' ', '\\', '0', '4', '6', '"'])).collect::<String>()) }
                 7 => format!("{}{}{}", kw(r, "TXT"), ws(r), (0..r.below(6)).map(|_| *r.pick(&['a', '\\', '1', '9', '"'])).collect::<String>()),
